@@ -263,8 +263,9 @@ ModeReg reg("C08", [](const zoo::Factory & f) {
         ctx->inst,
         [ctx] {
             auto g = rc::gen::exec([ctx] { return draw_bits_case(ctx->d); });
+            const char * nc = getenv("VERIF_C08_CASES");
             rc_campaign_json(
-                ctx->inst, tier(6, 60), 100, rc::gen::map(g, [](Case && c) { return c.to_json(); }), [ctx](const json & j) { return run(*ctx, Case::from_json(j), std::nullopt); }
+                ctx->inst, nc ? atoi(nc) : tier(6, 60), 100, rc::gen::map(g, [](Case && c) { return c.to_json(); }), [ctx](const json & j) { return run(*ctx, Case::from_json(j), std::nullopt); }
             );
         },
         [ctx, from](const json & j) { return run(*ctx, Case::from_json(j), from(j)); }
